@@ -53,6 +53,9 @@ type metricStore struct {
 // newMetricStore returns a new mStoreINTF.
 func newMetricStore() mStoreINTF {
 	var ms metricStore
+	// NOTE: a new store is active, if not the gc of metadata database(after flush) removes it
+	// before its first field is generated, and the writer goes on with the removed store.
+	ms.accessTime = fasttime.UnixMilliseconds()
 	return &ms
 }
 
